@@ -34,10 +34,12 @@ def prog_strategy():
         st.tuples(st.sampled_from(["conv", "laxconv"]), st.integers(0, 3), st.sampled_from([1, 3])).map(list),
         st.tuples(st.sampled_from(["relu", "tanh", "avgpool", "maxpool", "add_x2", "scale_bias", "t_internal", "mul_vec", "bcast_like", "ones_like_cat"])).map(list),
     )
-    out = st.sampled_from(["h", "h", "x", "mean_hw", "mean_c", "h2", "sum_all", "h_dup"])
+    out = st.sampled_from(["h", "h", "x", "mean_hw", "mean_c", "h2", "sum_all", "h_dup",
+                           "mean_hw_keep", "xmean_keep", "xmean_keep", "xmax_keep", "xsum_c_keep"])
     return st.fixed_dictionaries({
         "steps": st.lists(step, min_size=1, max_size=5),
         "outs": st.lists(out, min_size=1, max_size=3),
+        "dup": st.booleans(),  # observe the first result a second time (one value, two outputs, independently flagged)
         "two": st.booleans(),
         "vec": st.booleans(),
         "sym": st.booleans(),
@@ -48,6 +50,10 @@ def prog_strategy():
 
 
 _CONV_CACHE = {}
+
+
+def _outs(pg):
+    return list(pg["outs"]) + ([pg["outs"][0]] if pg.get("dup") else [])
 
 
 def make_fn(pg):
@@ -98,7 +104,12 @@ def make_fn(pg):
             elif t == "ones_like_cat":
                 h = jnp.concatenate([h, jnp.ones_like(h)], axis=3)[..., : h.shape[3]] + h * 0.0
         outs = []
-        for o in pg["outs"]:
+        seen = {}
+        for o in _outs(pg):
+            if pg.get("dup") and o in seen:  # the very same value observed again
+                outs.append(seen[o])
+                continue
+            seen[o] = None
             if o == "h":
                 outs.append(h)
             elif o == "h_dup":
@@ -113,6 +124,17 @@ def make_fn(pg):
                 outs.append(jnp.mean(h, axis=3))
             elif o == "sum_all":
                 outs.append(jnp.sum(h))
+            # 4-D reductions (keepdims): selectable outputs whose producer is the reducer the transpose-reduce fold rewrites;
+            # the x* forms sit directly behind the input boundary transpose, and a repeated entry observes one value twice
+            elif o == "mean_hw_keep":
+                outs.append(jnp.mean(h, axis=(1, 2), keepdims=True))
+            elif o == "xmean_keep":
+                outs.append(jnp.mean(x, axis=(1, 2), keepdims=True))
+            elif o == "xmax_keep":
+                outs.append(jnp.max(x, axis=(1, 2), keepdims=True))
+            elif o == "xsum_c_keep":
+                outs.append(jnp.sum(x, axis=3, keepdims=True))
+            seen[o] = outs[-1]
         return tuple(outs)
 
     return fn
@@ -126,8 +148,9 @@ def io_desc(pg):
         ins.append((b, hh, ww, pg["c"]))
     if pg["vec"]:
         ins.append((pg["c"],))
-    out_rank = {"h": 4, "h_dup": 4, "x": 4, "h2": 4, "mean_hw": 2, "mean_c": 3, "sum_all": 0}
-    outs = [out_rank[o] for o in pg["outs"]]
+    out_rank = {"h": 4, "h_dup": 4, "x": 4, "h2": 4, "mean_hw": 2, "mean_c": 3, "sum_all": 0,
+                "mean_hw_keep": 4, "xmean_keep": 4, "xmax_keep": 4, "xsum_c_keep": 4}
+    outs = [out_rank[o] for o in _outs(pg)]
     return ins, outs
 
 
